@@ -87,3 +87,14 @@ Proof.
   intros H. apply orb_false_iff in H. destruct H as [Hc Hl]. rewrite app_length, IH by assumption.
   unfold chunk_is_migrating in Hc. destruct (ck_mig0 c), (ck_mig1 c); cbn in Hc; try discriminate. reflexivity.
 Qed.
+
+Theorem release_only_empty : forall s name cl cl' c,
+  alookup name (st_clusters s) = Some cl ->
+  snd (auto_delete_free_nodes s name) = Done tt ->
+  alookup name (st_clusters (fst (auto_delete_free_nodes s name))) = Some cl' ->
+  In c (cl_chunks cl) -> ~ In c (cl_chunks cl') ->
+  ck_stable0 c = None /\ ck_stable1 c = None /\ ck_mig0 c = [] /\ ck_mig1 c = [].
+Proof.
+  intros s name cl cl' c H1 H2 H3 H4 H5. apply chunk_is_free_spec.
+  exact (delete_free_releases_only_free s name cl cl' c H1 H2 H3 H4 H5).
+Qed.
